@@ -89,7 +89,7 @@ func stdlib(v string) answers {
 	return a
 }
 
-var modelReadsInput = map[string]bool{"date": true, "uuid": true, "hostname": true, "ipv4": true, "ipv6": true}
+var modelReadsInput = map[string]bool{"date": true, "uuid": true, "hostname": true, "ipv4": true, "ipv6": true, "ip": true}
 
 var dottedQuad = regexp.MustCompile(`^(?:[0-9]{1,3}\.){3}[0-9]{1,3}$`)
 
